@@ -25,7 +25,8 @@ TMinMax   == IsEvent("minmax")   /\ WMinMax(E.a, E.lo, E.hi)
 TForget   == IsEvent("forget")   /\ runs' = <<>> /\ UNCHANGED <<wlen, wok, wclosed>>
 
 Init == WInit /\ l = 1
-Next == TStart \/ TWrite \/ TEndChunk \/ TOption \/ TClose \/ TReadBack \/ TZck \/ TUnzck \/ TUnzckF \/ TToolF \/ TNoWrite \/ TRun \/ TRunX \/ TPair \/ TMinMax \/ TForget
+TCloseX   == IsEvent("wclosex")  /\ WCloseX(E.ret, E.f)
+Next == TCloseX \/ TStart \/ TWrite \/ TEndChunk \/ TOption \/ TClose \/ TReadBack \/ TZck \/ TUnzck \/ TUnzckF \/ TToolF \/ TNoWrite \/ TRun \/ TRunX \/ TPair \/ TMinMax \/ TForget
 Spec == Init /\ [][Next]_tvars
 Accepted == /\ PrintT(<<"MATCHED", TLCGet("stats").diameter - 1, Len(TraceLog)>>)
             /\ TLCGet("stats").diameter - 1 = Len(TraceLog)
